@@ -501,7 +501,8 @@ fn run_case(c: &Case, out: &mut Outcome, flags: &mut (bool, bool, bool, bool)) {
                             }
                         }
                         if !seen {
-                            out.fail("reload-lost", format!("step {step}: the notified change of ({t:?}, {id}) was never looked at"));
+                            let threads: Vec<String> = crate::procfs::self_threads().iter().map(|t| format!("{}:{}", t.comm, t.state)).collect();
+                            out.fail("reload-lost", format!("step {step}: the notified change of ({t:?}, {id}) was never looked at in 4000 hot_reload calls (event accepted by the channel: {sent_ok}; entry still cached: {}; threads: {threads:?})", by_type!(*t, reload_id_of, &cache, &id).is_some()));
                             break;
                         }
                         src.tree().put(&id, t.ext(), format!("v{version}").into_bytes(), Variant::Buffer);
